@@ -75,13 +75,14 @@ def fMul (E : Env) (x y : FBigM) : FBigM :=
 /-- `FBig::sqr` = `self.context.sqr(&self.repr).value()` -/
 def fSqr (E : Env) (x : FBigM) : FBigM := ⟨(ctxSqr false E.B E.m E.c x.prec x.repr).1, x.prec⟩
 
-/-- `FBig + FBig` (`rs = 1`) / `FBig - FBig` (`rs = -1`) (`add_val_val` &c.; a zero operand returns the other one
-    as it is) -/
+/-- `FBig + FBig` (`rs = 1`) / `FBig - FBig` (`rs = -1`) (`add_val_val` &c.).  A zero operand: the other one ROUNDED to
+    the max context (`context.repr_round(rhs.repr).value()`, /repo 164990d; before that commit it was returned as it
+    was, i.e. possibly longer than the result precision) -/
 def fAddSub (E : Env) (x y : FBigM) (rs : Int) : FBigM :=
   let p := ctxMaxP x.prec y.prec
   let r : FRepr :=
-    if x.repr.isZero then ⟨rs * y.repr.signif, y.repr.exp⟩
-    else if y.repr.isZero then x.repr
+    if x.repr.isZero then (reprRound E.B E.m E.c p ⟨rs * y.repr.signif, y.repr.exp⟩).1
+    else if y.repr.isZero then (reprRound E.B E.m E.c p x.repr).1
     else if x.repr.exp = y.repr.exp then
       (reprRound E.B E.m E.c p (FRepr.new E.B (x.repr.signif + rs * y.repr.signif) x.repr.exp)).1
     else if x.repr.exp > y.repr.exp then (reprAddLargeSmall E.B E.m E.c E.est.dub p x.repr y.repr rs).1
